@@ -458,6 +458,17 @@ class IntroVisitor(_ScopedVisitor):
         # _logger.debug(f"visit_call: call name is {n}")
         if n is not None:
             self._called_nodes.add(id(n))
+        # The arguments are evaluated before the call itself: the calls that they make are part of the
+        # context of this call (keep(path, fun, other_fun()) depends on other_fun).
+        # The function passed to keep() is analysed with its actual arguments:
+        # it must not be analysed by-name (without arguments) when visiting the arguments.
+        kept_fun = InspectFunction.kept_function_node(
+            node, self._gctx, self._start_mod, self._scope_locals
+        )
+        if kept_fun is not None:
+            self._called_nodes.add(id(kept_fun))
+        for arg in list(node.args) + [k.value for k in node.keywords]:
+            self.visit(arg)
         # All the lines of the function up to the end of the call (a call may span several lines).
         # TODO: refine it based of the nested parse tree?
         end_lineno = getattr(node, "end_lineno", None) or node.lineno
@@ -480,18 +491,10 @@ class IntroVisitor(_ScopedVisitor):
         )
         if fi_or_p is not None and isinstance(fi_or_p, FunctionInteractions):
             self.inters.append(fi_or_p)
-            # The function passed to keep() has just been analysed with its actual arguments.
-            # It must not be analysed again by-name (without arguments) when visiting the arguments.
-            if (
-                fi_or_p.store_path is not None
-                and len(node.args) >= 2
-                and isinstance(node.args[1], ast.Name)
-            ):
-                self._called_nodes.add(id(node.args[1]))
         # str is the underlying type of a DDSPath
         if fi_or_p is not None and isinstance(fi_or_p, str):
             self.load_paths.append(fi_or_p)
-        self.generic_visit(node)
+        self.visit(node.func)
 
     def _loads_siglist(self) -> List[Tuple[HK, PyHash]]:
         # The paths loaded so far in the function: the calls that follow may use their content.
@@ -1067,6 +1070,31 @@ class InspectFunction(object):
                         dec.args[0], mod, gctx, local_path
                     )
                     return store_path
+        return None
+
+    @classmethod
+    def kept_function_node(
+        cls,
+        node: ast.Call,
+        gctx: EvalMainContext,
+        mod: ModuleType,
+        var_names: Set[LocalVar],
+    ) -> Optional[ast.Name]:
+        """
+        The name of the function that is kept, if the node is a call dds.keep(path, name, ...).
+        """
+        if len(node.args) < 2 or not isinstance(node.args[1], ast.Name):
+            return None
+        if not isinstance(node.func, (ast.Name, ast.Attribute)):
+            return None
+        local_path = LocalDepPath(PurePosixPath("/".join(_function_name(node.func))))
+        if str(local_path.parts[0]) in var_names:
+            return None
+        z = ObjectRetrieval.retrieve_object(local_path, mod, gctx)
+        if isinstance(
+            z, AuthorizedObject
+        ) and z.resolved_path == CanonicalPathUtils.from_list(["dds", "keep"]):
+            return node.args[1]
         return None
 
     @classmethod
